@@ -1,11 +1,13 @@
 #!/bin/bash
-# try_seeded.sh <patch.diff> <ID> [<ID>...] : apply a seeded change to /repo, run the quick checks, undo it.
-P=$1; shift
-cd /repo && git status --porcelain | grep -q . && { echo "/repo not clean"; exit 1; }
-git -C /repo apply $P || { echo "patch does not apply"; exit 1; }
+# try_seeded.sh <patch.diff> <ID> [<ID>...] : apply a seeded change to a scratch worktree of /repo
+# (never to /repo itself), run the quick checks against that worktree, undo it.
+P=$(readlink -f $1); shift
+M=/tmp/mutrepo
+if [ ! -d $M ]; then git -C /repo worktree add -q --detach $M HEAD || exit 1; fi
+git -C $M checkout -q --detach $(git -C /repo rev-parse HEAD) && git -C $M checkout -- . && git -C $M clean -fdq
+git -C $M apply $P || { echo "patch does not apply"; exit 1; }
 for id in "$@"; do
   echo "=== $id"
-  (cd /verif && ./check $id quick 2>&1 | grep -v "^  [a-z_]" | cut -c1-400 | head -8)
+  (cd /verif && VERIF_REPO=$M ./check $id ${VERIF_TIER:-quick} 2>&1 | grep -v "^  [a-z_]" | cut -c1-400 | head -8)
 done
-git -C /repo checkout -- .
-git -C /repo status --porcelain | head -3
+git -C $M checkout -- .
